@@ -175,6 +175,9 @@ def cred_classes(rnd, big=True):
         ("empty", b""),
         ("1byte", b"\x00"),
         ("email", b"alice@example.com"),
+        ("ws-trailing", b"alice\n"),
+        ("ws-leading", b" \talice"),
+        ("ws-only", b" "),
         ("len64", bytes(rnd.randrange(256) for _ in range(64))),
         ("len1k", bytes(rnd.randrange(256) for _ in range(1024))),
     ]
